@@ -280,7 +280,8 @@ fn main() {
 		}
 		// cheapest runs first, so that a wall cap cuts the biggest enumeration rather than a store version
 		runs.sort_by_key(|(v2, _, len, alpha)| ((alpha.len() as u64).pow(*len as u32), *v2));
-		let seq_deadline = if thorough { t_start + Duration::from_secs(cap * 2 / 5) } else { t_start + Duration::from_secs(20) };
+		// (relative to now, not to the start: on a loaded machine the parts before this one must not eat its budget)
+		let seq_deadline = if thorough { t_start + Duration::from_secs(cap * 2 / 5) } else { (t_start + Duration::from_secs(20)).max(Instant::now() + Duration::from_secs(12)) };
 		let mut jr = Vec::new();
 		let mut total = seq::SeqStats::default();
 		for (v2, nsname, len, alpha) in runs {
@@ -341,7 +342,7 @@ fn main() {
 			k,
 			max_faults: args.opt_u64("maxfaults").unwrap_or(1) as u8,
 			threads: args.threads,
-			deadline: Some(deadline),
+			deadline: Some(if thorough { deadline } else { deadline.max(Instant::now() + Duration::from_secs(20)) }),
 			policy: pol.clone(),
 			det_sample: args.opt_u64("detsample").unwrap_or(64),
 		};
